@@ -162,3 +162,122 @@ func VerifModelLines(s string) []string {
 	}
 	return out
 }
+
+func VerifModelCut(s, sep string) (before, after string, found bool) {
+	if i := VerifModelIndex(s, sep); i >= 0 {
+		return s[:i], s[i+len(sep):], true
+	}
+	return s, "", false
+}
+
+func VerifModelCutPrefix(s, prefix string) (after string, found bool) {
+	if !VerifModelHasPrefix(s, prefix) {
+		return s, false
+	}
+	return s[len(prefix):], true
+}
+
+func VerifModelCutSuffix(s, suffix string) (before string, found bool) {
+	if !VerifModelHasSuffix(s, suffix) {
+		return s, false
+	}
+	return s[:len(s)-len(suffix)], true
+}
+
+func VerifModelLastIndex(s, sep string) int {
+	n := len(sep)
+	for i := len(s) - n; i >= 0; i-- {
+		if s[i:i+n] == sep {
+			return i
+		}
+	}
+	return -1
+}
+
+func VerifModelIndexByte(s string, c byte) int {
+	for i := 0; i < len(s); i++ {
+		if s[i] == c {
+			return i
+		}
+	}
+	return -1
+}
+
+func VerifModelCount(s, sep string) int {
+	if sep == "" {
+		return len(s) + 1
+	}
+	n := 0
+	for {
+		i := VerifModelIndex(s, sep)
+		if i < 0 {
+			return n
+		}
+		n++
+		s = s[i+len(sep):]
+	}
+}
+
+func VerifModelReplaceAll(s, old, new string) string {
+	if old == "" {
+		panic("model: ReplaceAll with empty old")
+	}
+	out := ""
+	for {
+		i := VerifModelIndex(s, old)
+		if i < 0 {
+			return out + s
+		}
+		out += s[:i] + new
+		s = s[i+len(old):]
+	}
+}
+
+func verifInSet(c byte, set string) bool {
+	for i := 0; i < len(set); i++ {
+		if set[i] == c {
+			return true
+		}
+	}
+	return false
+}
+
+func VerifModelTrimLeft(s, cutset string) string {
+	i := 0
+	for i < len(s) && verifInSet(s[i], cutset) {
+		i++
+	}
+	return s[i:]
+}
+
+func VerifModelTrimRight(s, cutset string) string {
+	j := len(s)
+	for j > 0 && verifInSet(s[j-1], cutset) {
+		j--
+	}
+	return s[:j]
+}
+
+func VerifModelTrim(s, cutset string) string {
+	return VerifModelTrimRight(VerifModelTrimLeft(s, cutset), cutset)
+}
+
+func VerifModelToLower(s string) string {
+	out := ""
+	for i := 0; i < len(s); i++ {
+		out += string(rune(verifLower(s[i])))
+	}
+	return out
+}
+
+func VerifModelToUpper(s string) string {
+	out := ""
+	for i := 0; i < len(s); i++ {
+		c := s[i]
+		if c >= 'a' && c <= 'z' {
+			c -= 32
+		}
+		out += string(rune(c))
+	}
+	return out
+}
